@@ -3,13 +3,17 @@ from .configs import CONFIGS, ALL_INTERNAL, CACHES_EXPORT
 CONFIGS["C29"] = dict(
     prop="C29", engine="cluster-net", pkg="internal/server/cluster", harness="C29",
     level="exploration",
-    level_text="seeded search over (cluster size 1-5 x purge / membership / availability / forged-message histories x message "
-               "faults x schedules): several simulated nodes in one process (per-node caches state, node id and router; one "
-               "shared SQLite membership table), the real caches.Purge -> OnPurge -> BroadcastCacheFlush -> SendCacheFlush -> "
-               "FlushCacheHandler path over a simulated transport that drops, delays (also past the sender's timeout), "
-               "duplicates and refuses messages; invariants: only origin nodes send, hops=1 on the wire, messages per purge "
-               "bounded by the active peers, every active peer whose flush was delivered lost its cached entry, a flush over "
-               "the hop limit changes nothing.",
+    level_text="seeded search over (cluster size 1-5 x purge / membership / lifecycle / availability / partition / forged-message "
+               "histories x message faults x schedules): several simulated server processes in one OS process (per-process caches "
+               "state, node id, membership handle and router; one shared SQLite membership file), each joining through the real "
+               "cluster.Initialize and leaving through the real cluster.Shutdown or by crashing (row left active) and restarting as a "
+               "new generation on the same port; the real caches.Purge / PurgeAll -> OnPurge -> BroadcastCacheFlush -> SendCacheFlush -> "
+               "FlushCacheHandler path over a simulated transport that drops, delays (also past the sender's timeout), duplicates, "
+               "refuses and black-holes (partition) messages; invariants: only origin nodes send, hops=1 on the wire, per purge "
+               "exactly one message per active membership row other than the sender's (a row changed concurrently may or may not "
+               "count), every peer whose flush was delivered lost its cached entry (every predefined cache class and a user-defined "
+               "one), a flush over the hop limit changes nothing, the membership table equals what the operations amount to, every "
+               "peer is tried within rows x 5 s, and in a phase without faults every notification is delivered within a second.",
     technique="deterministic simulation: multi-node in one process, seeded scheduler, simulated transport with message loss/delay/duplication, invariants at quiescence",
     rewrite=dict(dirs=ALL_INTERNAL),
     extra_files=[CACHES_EXPORT],
@@ -17,14 +21,19 @@ CONFIGS["C29"] = dict(
     quick=dict(runs=1500, per_proc=100, budget_s=240),
     thorough=dict(runs=100000, per_proc=1000, budget_s=1500),
     det_seeds=24,
-    rule="clusters of 1-5 nodes, 2-7 phases of 1-2 operations (purge of one of 3 cache classes on a node, member removal / "
-         "re-join, node down / up, forged flush with hops 0/1/4/5/9), two thirds of the runs with 1-5 message faults (drop, "
-         "delay 1-20 s, duplicate); non-trivial = >=1 flush message on the wire; distinct = distinct (scheduler decisions, "
-         "history, message fates) hash",
-    real=["caches.Purge/PurgeLocal/OnPurge", "cluster.BroadcastCacheFlush, SendCacheFlush, FlushCacheHandler, ValidateClusterToken, ListActiveMembers, upsertMember, RemoveMember",
-          "router.ServeHTTP per node", "net/http client with its 5 s timeout on the fake clock", "SQLite membership table"],
-    stubbed=["transport between nodes: simulator (http.DefaultTransport seam)", "per-node package state (caches tables, NodeID, ThisMember) swapped by the scheduler on node switches",
-             "cluster.Initialize and the health checker are bypassed: members are registered with the real upsertMember; membership changes are generated operations"],
-    assumptions=["delivery to a peer whose message was dropped or refused is not demanded (the code has no retry and the statement does not ask for one)", "node crash/restart is not simulated, only unavailability"],
-    required_probes=["flushes_delivered_and_checked", "over_limit_forgeries_checked", "drop", "delay", "dup", "node-down-refused"],
+    rule="clusters of 1-5 processes, 2-7 phases of 1-3 operations: purge of one of 3 cache classes (drawn per run from the 12 "
+         "predefined classes + a user-defined one) or PurgeAll on a node, administrative member removal / re-activation (before the "
+         "purges of a phase or concurrently with them), listener down / up, crash / graceful stop / start of a new generation, "
+         "partition into two halves for a phase, forged flush with hops 0/1/4/5/9; half of the runs use the lifecycle and "
+         "concurrent-membership operations; two thirds of the runs have 1-5 message faults (drop, delay 1-20 s, duplicate); "
+         "non-trivial = >=1 flush message on the wire; distinct = distinct (scheduler decisions, history, message fates) hash",
+    real=["caches.Purge/PurgeLocal/PurgeAll/OnPurge", "cluster.Initialize (join), Shutdown (leave), BroadcastCacheFlush, SendCacheFlush, FlushCacheHandler, ValidateClusterToken, ListActiveMembers, upsertMember, RemoveMember",
+          "router.ServeHTTP per process", "net/http client with its 5 s timeout on the fake clock", "SQLite membership file opened by every process through openSystemDB"],
+    stubbed=["transport between processes: simulator (http.DefaultTransport seam), routing by port", "per-process package state (caches tables, NodeID, ThisMember, systemDB) swapped by the scheduler on process switches",
+             "the health checker is not run (pingPeer builds a private http.Transport that cannot be routed through the simulator): evictions are generated operations using the real RemoveMember",
+             "a crash is placed between phases (at quiescence), not in the middle of a broadcast"],
+    assumptions=["delivery to a peer whose message was dropped, refused or partitioned away is not demanded (the code has no retry and the statement does not ask for one)",
+                 "a 'peer' is an active membership row other than the sender's own; a restarted process whose dead predecessor's row is still active is behind two rows"],
+    required_probes=["flushes_delivered_and_checked", "over_limit_forgeries_checked", "drop", "delay", "dup", "node-down-refused", "partition",
+                     "lifecycle_crash", "lifecycle_stop", "lifecycle_start", "concurrent_membership_change", "purge_all", "fault_free_phase_deliveries_checked"],
 )
